@@ -30,7 +30,15 @@ func Boot(ctx context.Context, ledgers []LedgerSpec) (*pgsim.DB, error) {
 		return nil, err
 	}
 	defer w.Close()
-	for _, l := range ledgers {
+	for i, l := range ledgers {
+		if i > 0 {
+			// one fresh pool (hence fresh sessions) per ledger: migration 17 leaves a
+			// session-lifetime temporary table behind, so creating a second BUCKET on the
+			// same connection fails with 42P07 — an observation outside the listed
+			// properties, recorded in DESIGN.md
+			w.Close()
+			w = world.Attach(w.PG)
+		}
 		conf := ledger.Configuration{Bucket: l.Bucket}
 		if l.Features != nil {
 			conf.Features = map[string]string{}
@@ -58,6 +66,7 @@ type StepInfo struct {
 	Ref     *Ref                        // reference of that ledger after the step
 	RefPrev *Ref                        // reference before the step
 	Refs    map[string]*Ref
+	Ctrls   map[string]ledgercontroller.Controller // every ledger's live controller
 	DumpPrev, Dump string
 }
 
@@ -232,17 +241,55 @@ func (e *SeqExplorer) runPath(ctx context.Context, boot *pgsim.DB, path []Op) (*
 		ctrls[l.Name] = c
 		refs[l.Name] = NewRef()
 	}
-	info := &StepInfo{Path: path, W: w, Refs: refs}
+	info := &StepInfo{Path: path, W: w, Refs: refs, Ctrls: ctrls}
 	for i, op := range path {
 		name := op.Ledger
 		if name == "" {
 			name = e.Ledgers[0].Name
 		}
-		c := ctrls[name]
-		if c == nil {
-			return nil, nil, fmt.Errorf("op on unknown ledger %q", name)
+		if op.Kind == "createledger" {
+			// creates ledger op.Ledger in bucket op.Address mid-history (idempotent for the path)
+			last := i == len(path)-1
+			if last {
+				info.DumpPrev = pg.DumpFiltered(false, dumpFilter)
+			}
+			var out Outcome
+			if ctrls[name] == nil {
+				out.Err = w.CreateLedger(ctx, name, ledger.Configuration{Bucket: op.Address})
+				if out.Err == nil {
+					c, err := w.Sys.GetLedgerController(ctx, name)
+					if err != nil {
+						return nil, nil, err
+					}
+					ctrls[name] = c
+					refs[name] = NewRef()
+				}
+			} else {
+				out.Err = fmt.Errorf("ledger already exists")
+			}
+			out.Class = Classify(out.Err)
+			if out.Class == "ENGINE" {
+				return nil, nil, fmt.Errorf("engine error in %s: %v", op, out.Err)
+			}
+			if last {
+				info.Last, info.Out = op, out
+				info.Ctrl, info.Ref = ctrls[e.Ledgers[0].Name], refs[e.Ledgers[0].Name]
+				info.RefPrev = info.Ref.Clone()
+			}
+			continue
 		}
+		c := ctrls[name]
 		last := i == len(path)-1
+		if c == nil {
+			// the ledger does not exist (yet): the request cannot even be routed
+			if last {
+				info.DumpPrev = pg.DumpFiltered(false, dumpFilter)
+				info.Last, info.Out = op, Outcome{Err: fmt.Errorf("ledger %s does not exist", name), Class: "no_such_ledger"}
+				info.Ctrl, info.Ref = ctrls[e.Ledgers[0].Name], refs[e.Ledgers[0].Name]
+				info.RefPrev = info.Ref.Clone()
+			}
+			continue
+		}
 		if last {
 			info.DumpPrev = pg.DumpFiltered(false, dumpFilter)
 			info.RefPrev = refs[name].Clone()
@@ -274,7 +321,7 @@ func (e *SeqExplorer) runPath(ctx context.Context, boot *pgsim.DB, path []Op) (*
 		w2 := world.Attach(pg)
 		defer w2.Close()
 		name := info.Last.Ledger
-		if name == "" {
+		if name == "" || ctrls[name] == nil || info.Last.Kind == "createledger" {
 			name = e.Ledgers[0].Name
 		}
 		c2, err := w2.Sys.GetLedgerController(ctx, name)
@@ -284,6 +331,14 @@ func (e *SeqExplorer) runPath(ctx context.Context, boot *pgsim.DB, path []Op) (*
 		rep2 := &Report{}
 		i2 := *info
 		i2.W, i2.Ctrl = w2, c2
+		i2.Ctrls = map[string]ledgercontroller.Controller{}
+		for ln := range ctrls {
+			cc, err := w2.Sys.GetLedgerController(ctx, ln)
+			if err != nil {
+				return nil, nil, err
+			}
+			i2.Ctrls[ln] = cc
+		}
 		e.Check(ctx, &i2, rep2)
 		for _, m := range rep2.Items {
 			rep.Add("restart:"+m.Sig, "(fresh process) %s", m.What)
